@@ -174,8 +174,27 @@ pub fn run(ctx: &Ctx, rep: &mut Report) {
         let canonical = if opt_words.is_empty() { canonical } else { format!("{} {}", opt_words.join(" "), canonical) };
         let base = match parse_g(&canonical) {
             Ok(Ok(v)) => v,
-            Ok(Err(_)) => {
-                rep.count("canonical_not_parsed"); // C05's subject
+            Ok(Err(msg)) => {
+                // whether the canonical text belongs to the language is C05's subject - unless an equivalent
+                // spelling of the same text is accepted: then two spellings that differ only insignificantly
+                // give different results (an error and a tree)
+                for k in 0..6 {
+                    let mut vr = Rng::for_case(ctx.seed ^ 0x99, "variant", i * 1000 + k);
+                    let mut var = Var { r: &mut vr, axes: [false; 5] };
+                    if let Some(body) = var.render(&e) {
+                        let text = if opt_words.is_empty() { body } else { format!("{} {}", opt_words.join(" "), body) };
+                        if let Ok(Ok(_)) = parse_g(&text) {
+                            rep.violation(
+                                "C06:canonical-rejected-variant-accepted",
+                                &format!("canonical {:?} is refused ({}) but the equivalent spelling {:?} is accepted", canonical, msg, text),
+                                &format!("expr:{}", i),
+                                J::obj(vec![("canonical", J::s(&canonical)), ("variant", J::s(&text))]),
+                            );
+                            return;
+                        }
+                    }
+                }
+                rep.count("canonical_not_parsed");
                 return;
             }
             Err(p) => {
